@@ -369,10 +369,14 @@ type stateFn func(*Scanner) (stateFn, error)
 // that handles the entire packfile header.
 func packHeaderSignature(r *Scanner) (stateFn, error) {
 	start := make([]byte, 4)
-	n, err := r.Read(start)
+	// A reader may deliver fewer than 4 bytes per Read: read the whole signature.
+	n, err := io.ReadFull(r, start)
 	if err != nil {
 		if n == 0 && err == io.EOF {
 			return nil, ErrEmptyPackfile
+		}
+		if errors.Is(err, io.ErrUnexpectedEOF) {
+			return nil, fmt.Errorf("%w: %w", ErrMalformedPackfile, ErrBadSignature)
 		}
 		return nil, fmt.Errorf("read signature: %w", err)
 	}
